@@ -128,6 +128,135 @@ theorem ready_not_addrs (H : RemHyp c w addrs own' X) {ready : List Wid} (hnr : 
   have : w' ≠ w := by intro e; rw [e, hnr] at hr; cases hr
   simp [this]
 
+/-- a transaction the ghost store has a credit of is a transaction of the stored chain -/
+theorem ghost_credit_occ (H : RemHyp c w addrs own' X) (hKN : KeysNodup c.own) (hk : k + 1 ≤ X.length)
+    (hS : ScanJS c w g X k) (hn : KeysNodup g.credits) {id : TxId} (h : existCreditFromTx g id = true) :
+    ∃ oc ∈ occs X, oc.t.id = id := by
+  have hA := ghost_agree H hKN hS
+  have HU := upperOK_join (k := k) H hKN hk
+  unfold existCreditFromTx at h
+  obtain ⟨e, he, hid⟩ := List.any_eq_true.1 h
+  have hid' : e.1.tx = id := by simpa using hid
+  have hget : AMap.get g.credits e.1 = some e.2 := (mem_iff_get_of_nodup hn e.1 e.2).1 he
+  have hc' : (joinBookK c w own' X k).credits e.1 = some e.2 := by rw [← hget]; exact (hA.credits e.1).symm
+  obtain ⟨oc, hoc, hi, _⟩ := HU.creditOcc e.1 e.2 hc'
+  exact ⟨oc, hoc, hi.trans hid'⟩
+
+/-- the coins of the ready wallets do not pay the removed wallet -/
+theorem ghost_coinsOK (H : RemHyp c w addrs own' X) (hKN : KeysNodup c.own) (hS : ScanJS c w g X k)
+    {ready : List Wid} (hnr : ready.contains w = false) : CoinsOK addrs ready g := by
+  have hA := ghost_agree H hKN hS
+  have hOw := ownW_sub hKN w
+  have hV' : ChainValid own' X := chainValid_minus H.minus H.valid
+  obtain ⟨hLoc, _⟩ := loc_bookOf (p := c.p) hV'
+  intro w' tx idx blk cr hr hu hc
+  have hww : w' ≠ w := by intro e; rw [e, hnr] at hr; cases hr
+  rw [hA.unspent, lookupU_append] at hu
+  -- the entry found is an entry of the other wallets' half
+  have hex : ∃ u, lookupU (bookOf c.p own' X).L tx idx = some u ∧ u.wallet = w' ∧ u.blk = blk := by
+    cases h1 : lookupU (bookOf c.p own' X).L tx idx with
+    | some u =>
+      rw [h1] at hu
+      simp only [orE_some] at hu
+      by_cases hw : u.wallet = w'
+      · refine ⟨u, rfl, hw, ?_⟩
+        simpa [Option.filter, hw] using hu
+      · simp [Option.filter, hw] at hu
+    | none =>
+      rw [h1] at hu
+      exfalso
+      cases h2 : lookupU (bookOf c.p (ownW c.own w) (X.take (k + 1))).L tx idx with
+      | none => rw [h2] at hu; simp [orE] at hu
+      | some u =>
+        rw [h2] at hu
+        have huw := bw_L_wallet (p := c.p) hOw (X.take (k + 1)) u (lookupU_some h2).1
+        have hne : ¬ u.wallet = w' := by rw [huw]; exact fun e => hww e.symm
+        simp [orE, Option.filter, hne] at hu
+  obtain ⟨u, hl, huw, hub⟩ := hex
+  obtain ⟨hmem, htx, hidx⟩ := lookupU_some hl
+  have hkey : u.credKey = ⟨tx, blk, idx⟩ := by unfold UCoin.credKey; rw [htx, hidx, hub]
+  have hcr := hLoc.cred u hmem
+  rw [hkey] at hcr
+  rw [hA.credits, hcr] at hc
+  simp only [orE_some, Option.some.injEq] at hc
+  have hown := hLoc.own u hmem
+  rw [ownerOf_minus H.minus] at hown
+  have hown0 : ownerOf c.own u.out = some (u.wallet, u.change) := by
+    cases h0 : ownerOf c.own u.out with
+    | none => rw [h0] at hown; cases hown
+    | some y =>
+      rw [h0] at hown
+      by_cases hy : y.1 ≠ w
+      · simpa [Option.filter, hy] using hown
+      · simp [Option.filter, hy] at hown
+  rw [H.managed, ← hc]
+  show isW c.own w u.out.addr = false
+  rw [isW_of_owner hown0, huw]
+  simpa using hww
+
+/-- the node finds every transaction the ghost store has a credit of -/
+theorem ghost_find (H : RemHyp c w addrs own' X) (hKN : KeysNodup c.own) (hk : k + 1 ≤ X.length)
+    (hS : ScanJS c w g X k) (hn : KeysNodup g.credits) {n : Node} {b : Block} (hext : n.chain = X ++ [b])
+    (hVn : ChainValid c.own n.chain) :
+    ∀ id, existCreditFromTx g id = true → (n.fetchTx id).isSome = true := by
+  intro id h
+  obtain ⟨oc, hoc, hid⟩ := ghost_credit_occ H hKN hk hS hn h
+  have hoc' : oc ∈ occs n.chain := by rw [hext]; exact mem_occs_pre hoc
+  have := fetchTx_of_occ (idsNodup hVn) hoc'
+  rw [hid] at this
+  rw [this]; rfl
+
+/-- a transaction the ghost store has a credit of but the real store has none pays no ready wallet: the credits of the
+    other wallets are all in the real store -/
+theorem real_own (H : RemHyp c w addrs own' X) (hKN : KeysNodup c.own) (hk : k + 1 ≤ X.length)
+    (hS : ScanJS c w g X k) (hn : KeysNodup g.credits) {s : Store} (hns : KeysNodup s.credits)
+    (hcred : ∀ ck, AMap.get s.credits ck = (joinBookK c w own' X k).credits ck ∨
+      (AMap.get s.credits ck = none ∧ ∃ cr, (joinBookK c w own' X k).credits ck = some cr ∧ isW c.own w cr.sh = true))
+    {n : Node} {b : Block} (hext : n.chain = X ++ [b]) (hVn : ChainValid c.own n.chain)
+    {ready : List Wid} (hnr : ready.contains w = false) :
+    ∀ (id : TxId) (pt : Tx) (idx : Nat) (o : Out) (w' : Wid) (ch : Bool), existCreditFromTx g id = true →
+      existCreditFromTx s id = false → n.fetchTx id = some pt → pt.outs[idx]? = some o → o.cls ≠ .raw →
+      AMap.get c.own o.addr = some (w', ch) → ready.contains w' = false := by
+  intro id pt idx o w' ch hg hs hf ho hcls hown
+  cases hr : ready.contains w' with
+  | false => rfl
+  | true =>
+    exfalso
+    have hww : w' ≠ w := by intro e; rw [e, hnr] at hr; cases hr
+    obtain ⟨oc, hoc, hid⟩ := ghost_credit_occ H hKN hk hS hn hg
+    have hoc' : oc ∈ occs n.chain := by rw [hext]; exact mem_occs_pre hoc
+    have hf' := fetchTx_of_occ (idsNodup hVn) hoc'
+    rw [hid, hf] at hf'
+    have hpt : pt = oc.t := Option.some.inj hf'
+    rw [hpt] at ho
+    have hV' : ChainValid own' X := chainValid_minus H.minus H.valid
+    have howner' : ownerOf own' o = some (w', ch) := by
+      rw [ownerOf_minus H.minus]
+      unfold ownerOf
+      simp [hcls, hown, hww]
+    have hcr : CreatedIn own' (occs X) ⟨w', id, idx, oc.bm, oc.t.cb, o, ch⟩ := ⟨oc, hoc, hid, ho, howner', rfl, rfl⟩
+    obtain ⟨cr, hcr1, hsh⟩ := credit_sh_of_created (credInv_bookOf (p := c.p) hV') hcr
+    have hU : (joinBookK c w own' X k).credits ⟨id, oc.bm, idx⟩ = some cr := by
+      show orE ((bookOf c.p own' X).credits ⟨id, oc.bm, idx⟩) _ = _
+      have : (bookOf c.p own' X).credits ⟨id, oc.bm, idx⟩ = some cr := hcr1
+      rw [this]; rfl
+    have hisW : isW c.own w cr.sh = false := by
+      rw [hsh]
+      show isW c.own w o.addr = false
+      unfold isW
+      rw [hown]
+      simpa using hww
+    rcases hcred ⟨id, oc.bm, idx⟩ with h1 | ⟨_, cr', h2, h3⟩
+    · rw [hU] at h1
+      have hmem := (mem_iff_get_of_nodup hns _ _).2 h1
+      have : existCreditFromTx s id = true := by
+        unfold existCreditFromTx
+        exact List.any_eq_true.2 ⟨_, hmem, by simp⟩
+      rw [hs] at this; cases this
+    · rw [hU] at h2
+      injection h2 with h2
+      rw [← h2, hisW] at h3; cases h3
+
 end ghost
 
 end MW.Lemmas.RemoveInterleave
